@@ -930,6 +930,12 @@ class Translator:
             sigs[opname] = {'lean': fi.lean, 'kinds': kinds, 'ret': fi.ret if isinstance(fi.ret, str) else list(fi.ret),
                             'params': [p[0] for p in fi.params if p[1] != 'static'],
                             'has_fuel': fi.has_fuel, 'reads_switches': fi.reads_switches}
+        for (m, n) in self.table_values:
+            lines.append(f'  | "table.{n}" => if a.size == 1 then some (match (Tbl.{n} : InterpTable Float).lookup (fOfBits a[0]!) with '
+                         f'| some v => bitsOf v | none => "IndexError") else none')
+            sigs[f'table.{n}'] = {'lean': f'Tbl.{n}', 'kinds': ['num'], 'ret': 'lookup', 'params': ['key'],
+                                  'has_fuel': False, 'reads_switches': False,
+                                  'keys': [k for k, v in sorted(self.table_values[(m, n)][0])]}
         lines.append('  | _ => none')
         lines.append('')
         lines.append('end Gen')
